@@ -201,6 +201,10 @@ def c13(tier):
     ch = [dict(c, c=[i]) for c in cf for i in inn]
     f32_job(run, "C13", cf, [1, 2, 4, 7], 6)
     release_job(run, "C13", cf, [1, 2, 4, 7], 6, extras=True)
+    # units of 2^-70 and 2^60: Drawdown and LnReturn are ratios (unchanged), WelfordRolling scales (answers converted back exactly)
+    for k_ in (-70, 60):
+        run.submit(p1_job, "roll-units-inv-p%d" % k_, "MC_Def", {"prop": "C13", "cfgs": cf[1:], "alphabet": [1, 2, 4, 7], "unit": 1, "maxlen": 6, "pow2": k_})
+        run.submit(p1_job, "roll-units-lin-p%d" % k_, "MC_Def", {"prop": "C13", "cfgs": cf[:1], "alphabet": [1, 2, 4, 7], "unit": 1, "maxlen": 6, "pow2": k_, "outpow2": -k_, "extras": False})
     run.submit(p1_job, "roll-chain", "MC_Def", {"prop": "C13", "cfgs": ch, "alphabet": [1, 2, 4, 7], "unit": 1, "maxlen": L - 1, "extras": True})
     # long positive streams (new peaks after deeper troughs, repeated peaks, monotone runs): exact running sums in the ghost state
     rnd = random.Random(77 + run.seed)
@@ -319,6 +323,11 @@ def c14(tier):
         cfz.append({"k": "RefTanh", "c": [x]})
         cfz.append({"k": "Tanh", "c": [x], "iref": len(cfz)})
     run.submit(p1_job, "rounded-negzero", "MC_Def", {"prop": "C14", "cfgs": cfz, "alphabet": [-2, 0, NZ, 3], "unit": 1, "maxlen": L})
+    # a clip at 0 commutes with a change of unit: in units of 2^-70 every non-zero value is closer to the clip than machine epsilon,
+    # yet GTE must still report max(x, 0) and LTE min(x, 0) (no tolerance around the clip)
+    clip0 = [{"k": g, "v": [0, 1], "c": [x]} for g in ("GTE", "LTE") for x in (E, sma(2))]      # children that scale with the unit
+    for k_ in (-70, 60):
+        run.submit(p1_job, "clip0-units-p%d" % k_, "MC_Def", {"prop": "C14", "cfgs": clip0, "alphabet": [-3, 0, 1, 4], "unit": 2, "maxlen": L, "pow2": k_, "outpow2": -k_})
     Kp = [E, {"k": "LnReturn"}, sma(2), {"k": "Constant", "v": [5, 4]}]
     cfp = [{"k": b, "c": [x, y]} for b in ("Add", "Subtract", "Multiply", "Divide") for x in Kp for y in Kp if "LnReturn" in (x["k"], y["k"])]
     cfp += [{"k": g, "v": [1, 4], "c": [{"k": "LnReturn"}]} for g in ("GTE", "LTE")] + [{"k": "Tanh", "c": [{"k": "LnReturn"}]}]
@@ -987,6 +996,11 @@ def c16(tier):
         for n, cs in (((20, (777, 123400)),) if tier == "quick" else ((20, (777, 123400)), (33, (123400, 999100)), (8, (777, 5555)))):
             for c in cs + (rnd.randint(101, 99999),):
                 tail({"k": k, "n": n}, c, 2600, 10)     # sqrt(ms) decays by 0.98 per step: the limit cycle shows after about 1700 steps
+    # ... and in f32 (1e-2 of the scale): 17.1 at N = 11, 3.3 at N = 23 cycle there when the noise floor is not an f32 one
+    for k in ("TrendFlex", "ReFlex"):
+        for n, c in ((11, 17100), (23, 3300)):
+            tails.append({"cfg": {"k": k, "n": n}, "unit": 1000, "mode": "machine", "eps": [1, 100], "float": "f32",
+                          "xs": walk(rnd, 60, 100, 10000, 600) + [c] * 1500, "k": 10})
     for cfg in ({"k": "LaguerreRSI", "n": 5}, {"k": "CyberCycle", "n": 5}, {"k": "SuperSmoother", "n": 5}, {"k": "RoofingFilter", "n": 5, "m": 3},
                 {"k": "LaguerreFilter", "g": [4, 5]}, {"k": "EhlersFisherTransform", "n": 5, "c": [E, ema(4)]}, ema(20)):
         tail(cfg, rnd.choice([1234, 9991, 777, rnd.randint(101, 9999)]), 1200, 20)
